@@ -193,7 +193,7 @@ class Job:
         self.function = function          # human-readable function under contract
         self.contract = contract          # contract name
         self.build = build
-        self.backend = backend            # sat | cvc5 | z3
+        self.backend = backend            # sat | kissat | cvc5 | z3
         self.unwind = unwind
         self.timeout = timeout
         self.min_obligations = min_obligations
@@ -226,6 +226,8 @@ def cbmc_cmd(job, binary, trace=False):
         cmd.append('--cvc5')
     elif job.backend == 'z3':
         cmd.append('--z3')
+    elif job.backend == 'kissat':      # same propositional encoding, decided by the installed kissat instead of the built-in MiniSat
+        cmd += ['--external-sat-solver', 'kissat']
     if job.unwind:
         cmd += ['--unwind', str(job.unwind), '--unwinding-assertions']
     if job.object_bits:
